@@ -6,8 +6,11 @@ WLow    == [surv |-> 2, inter |-> 10, forced |-> -1]
 WNone   == [surv |-> -1, inter |-> -1, forced |-> -1]
 WForced == [surv |-> 10, inter |-> 10, forced |-> 1]
 WInter  == [surv |-> 10, inter |-> 3, forced |-> -1]
-Weights == {WOK, WLow, WNone, WForced, WInter}
-Cuts    == {[form |-> "none", m1 |-> 0, m2 |-> 0], [form |-> "scalar", m1 |-> 5, m2 |-> 0], [form |-> "pair", m1 |-> 5, m2 |-> 5]}
+WMid    == [surv |-> 10, inter |-> 4, forced |-> -1]
+WMidS   == [surv |-> 4, inter |-> 10, forced |-> -1]
+Weights == {WOK, WLow, WNone, WForced, WInter, WMid, WMidS}
+Cuts    == {[form |-> "none", m1 |-> 0, m2 |-> 0], [form |-> "scalar", m1 |-> 5, m2 |-> 0], [form |-> "pair", m1 |-> 5, m2 |-> 5],
+            [form |-> "pair", m1 |-> 5, m2 |-> 3], [form |-> "pair", m1 |-> 3, m2 |-> 5]}
 Sols(P, A, ns) == {<<pp, aa, ss>> \in (1..P) \X (1..A) \X (1..2) : ss <= ns[pp][aa]}
 OffOpts(P, A, ns) == SUBSET ({<<1, 1, 1>>, <<P, A, ns[P][A]>>} \cap Sols(P, A, ns))
 BadOpts(P, A, ns) == SUBSET ({<<1, A, 1>>, <<P, 1, ns[P][1]>>} \cap Sols(P, A, ns))
@@ -19,5 +22,5 @@ InitMC == \E P \in 1..MaxP, A \in 1..MaxA :
              InitWith([P |-> P, A |-> A, w |-> w, wmin |-> wm, nsol |-> ns, off |-> of, bad |-> bd,
                        trig |-> t, writer |-> wrt, thrown |-> 1 + ((P + A + Cardinality(of)) % 3)])
 SpecMC == InitMC /\ [][Next]_vars
-WeightsSmall == {WOK, WLow, WForced}
+WeightsSmall == {WOK, WLow, WMid, WMidS}
 ====
